@@ -52,12 +52,14 @@ def Full : Prop :=
 /-! ## ties to `internal/openapiv3/validation.go` (regenerated facts) -/
 
 def getterName : NKind → String
-  | .int32 => "GetInt32" | .int64 => "GetInt64" | .float => "GetFloat" | .double => "GetDouble"
-  | _ => "none"
+  | .int32 => "GetInt32" | .sint32 => "GetSint32" | .sfixed32 => "GetSfixed32" | .uint32 => "GetUint32" | .fixed32 => "GetFixed32"
+  | .int64 => "GetInt64" | .sint64 => "GetSint64" | .sfixed64 => "GetSfixed64" | .uint64 => "GetUint64" | .fixed64 => "GetFixed64"
+  | .float => "GetFloat" | .double => "GetDouble"
 
 /-- **which getter each kind consults**: the model's `Impl.getter` is the composition of the
 kind switch of `extractValidationConstraints` with the getter each `apply…Constraints` reads:
-all 32-bit integer kinds read `GetInt32()`, all 64-bit kinds `GetInt64()`. -/
+every numeric kind reads the rule group of its OWN kind (since /repo 3ffb0a3; before, all 32-bit
+integer kinds read `GetInt32()` and all 64-bit kinds `GetInt64()`: `getterBefore3ffb0a3`). -/
 theorem getter_matches_source : ∀ nk ∈ NKind.all,
     ((Gen.OaRules.kindApply.lookup nk.name).bind fun f => Gen.OaRules.applyGetter.lookup f)
       = some (getterName (Impl.getter nk)) := by decide
@@ -69,11 +71,15 @@ theorem string_list_map_getters :
     ((Gen.OaRules.cardApply.lookup "IsMap").bind fun f => Gen.OaRules.applyGetter.lookup f) = some "GetMap" := by decide
 
 /-- every `base.DynamicValue` stored in `ExclusiveMinimum` / `ExclusiveMaximum` sets `N: 1` next
-to `B` (commit de811c7), so libopenapi renders the numeric `B` side; there are the eight of
-them (gt and lt in each of the four numeric helpers). -/
+to `B` (commit de811c7), so libopenapi renders the numeric `B` side; there are two of them (gt
+and lt) for each of the twelve numeric kinds (the eight integer kinds added by 3ffb0a3 share
+`applyIntegerRules`, whose literals are attributed to each apply function that delegates to it). -/
 theorem exclusive_literals_select_number :
     (∀ t ∈ Gen.OaRules.exclusiveLits, t.2.2.1 = ["N", "B"] ∧ t.2.2.2 = "1") ∧
-    Gen.OaRules.exclusiveLits.length = 8 := by decide
+    Gen.OaRules.exclusiveLits.length = 24 ∧
+    (NKind.all.all fun nk => match Gen.OaRules.kindApply.lookup nk.name with
+      | some f => (Gen.OaRules.exclusiveLits.filter (fun t => t.1 == f)).length == 2
+      | none => false) = true := by decide
 
 /-- every `const` / `enum` value is a `yaml.Node` with `Kind` and `Value` only: no `Tag`, no
 quoting style. -/
@@ -81,16 +87,18 @@ theorem scalar_nodes_are_untagged : ∀ t ∈ Gen.OaRules.nodeLits, t.2.2 = ["Ki
 
 /-- the rule accessor → schema keyword wiring the model transcribes. -/
 theorem keyword_wiring :
-    (["applyInt32Constraints", "applyInt64Constraints", "applyFloatConstraints", "applyDoubleConstraints"].all fun f =>
-      [("HasGte", "Minimum"), ("HasGt", "ExclusiveMinimum"), ("HasLte", "Maximum"), ("HasLt", "ExclusiveMaximum"),
-       ("HasConst", "Const"), ("GetIn", "Enum")].all fun p => Gen.OaRules.assigns.contains (f, p.1, p.2)) = true ∧
+    (NKind.all.all fun nk => match Gen.OaRules.kindApply.lookup nk.name with
+      | some f =>
+        [("HasGte", "Minimum"), ("HasGt", "ExclusiveMinimum"), ("HasLte", "Maximum"), ("HasLt", "ExclusiveMaximum"),
+         ("HasConst", "Const"), ("GetIn", "Enum")].all fun p => Gen.OaRules.assigns.contains (f, p.1, p.2)
+      | none => false) = true ∧
     ([("applyStringConstraints", "HasMinLen", "MinLength"), ("applyStringConstraints", "HasMaxLen", "MaxLength"),
       ("applyStringConstraints", "HasPattern", "Pattern"), ("applyStringConstraints", "GetIn", "Enum"),
       ("applyStringConstraints", "HasConst", "Const"), ("applyRepeatedConstraints", "HasMinItems", "MinItems"),
       ("applyRepeatedConstraints", "HasMaxItems", "MaxItems"), ("applyRepeatedConstraints", "GetUnique", "UniqueItems"),
       ("applyMapConstraints", "HasMinPairs", "MinProperties"), ("applyMapConstraints", "HasMaxPairs", "MaxProperties")].all
         fun t => Gen.OaRules.assigns.contains t) = true ∧
-    Gen.OaRules.assigns.length = 39 := by decide
+    Gen.OaRules.assigns.length = 95 := by decide
 
 def Fmt.accessor : Fmt → String
   | .email => "GetEmail" | .uuid => "GetUuid" | .uri => "GetUri" | .hostname => "GetHostname"
@@ -115,7 +123,8 @@ example : Impl.requiredList [("a".toList, {required := true}), ("b".toList, {}),
 
 /-! ## classes on which schema acceptance = rule acceptance, for all bounds and all values -/
 
-/-- **integers as JSON numbers** (`int32` fields; `int64` fields with `int64_encoding = NUMBER`),
+/-- **integers as JSON numbers** (`int32`, `sint32`, `sfixed32` fields; `int64`, `sint64`, `sfixed64`
+fields with `int64_encoding = NUMBER`),
 rules declared in the field's own group: `gt`, `gte`, `lt`, `lte`, `const`, `in` with any bounds
 of magnitude ≤ 2^53 and ANY integer value. Partial: bounds beyond 2^53 are rounded by `float64`
 (documented NUMBER limitation, `number_bound_rounds_beyond_2p53`). -/
@@ -280,16 +289,24 @@ theorem w_int64_string_const :
 
 def ownGroupRules (nk : NKind) : FieldRules := {group := nk, gte := some (ib 5), numConst := some (.int 7)}
 
-/-- rules declared in the `sint32`, `sfixed32`, `uint32`, `fixed32`, `sint64`, `sfixed64`,
-`uint64`, `fixed64` groups (the only groups protovalidate accepts on those kinds) are never
-read: the schema carries no rule keyword at all. `gte: 5` on each such kind: the rule rejects
-`3`, the schema accepts it. -/
+/-- regression witness (entry `rule_group_not_read`, fixed by /repo 3ffb0a3): before, rules declared
+in the `sint32`, `sfixed32`, `uint32`, `fixed32`, `sint64`, `sfixed64`, `uint64`, `fixed64` groups
+(the only groups protovalidate accepts on those kinds) were never read — the old getter maps each of
+these kinds to another group; now `gte: 5` on each such kind is published (`minimum: 5`) and the
+schema rejects `3` as the rule does. -/
 theorem w_rule_group_ignored :
-    ∀ nk ∈ [NKind.sint32, .sfixed32, .uint32, .fixed32, .sint64, .sfixed64, .uint64, .fixed64], ∀ n ∈ [true, false],
-      (Impl.scalarCore (.num nk) .single (ownGroupRules nk)).isEmpty = true ∧
+    ∀ nk ∈ [NKind.sint32, .sfixed32, .uint32, .fixed32, .sint64, .sfixed64, .uint64, .fixed64],
+      Impl.getterBefore3ffb0a3 nk ≠ nk ∧ Impl.getter nk = nk ∧
+      (kwOf (Impl.fieldSchema (.num nk) .single true (ownGroupRules nk)) K.minimum).map (Json.beq (.num (.int 5))) = some true ∧
       Spec.satisfies (.num nk) .single (ownGroupRules nk) (.one (.num (.int 3))) = false ∧
-      accepts [] 3 (Impl.fieldSchema (.num nk) .single n (ownGroupRules nk)) (jsonForm (.num nk) n (.one (.num (.int 3)))) = true := by
+      accepts [] 3 (Impl.fieldSchema (.num nk) .single true (ownGroupRules nk)) (jsonForm (.num nk) true (.one (.num (.int 3)))) = false := by
   decide
+
+/-- **every numeric kind publishes the rules of its own group**: the keywords of a scalar numeric
+field are the keywords of ITS group, for all twelve kinds and all rules. -/
+theorem own_group_rules_published (nk : NKind) (c : FCard) (hc : c.isScalar = true) (r : FieldRules) (hg : r.group = nk) :
+    Impl.scalarCore (.num nk) c r = Impl.numericKws nk r := by
+  simp [Impl.scalarCore, hc, Impl.getter, hg]
 
 def inRules : FieldRules := {strIn := ["a".toList, "123".toList, "".toList]}
 
